@@ -49,6 +49,75 @@ CLAIMS['C03'] = dict(
               'evaluation of comparisons over an ast-built CFG',
     ref='DESIGN.md section 3, C03')
 
+def _c(pid, text, technique):
+    CLAIMS[pid] = dict(text=text, technique=technique,
+                       ref='DESIGN.md section 3, ' + pid)
+
+
+_c('C04', 'Narrow structural claim: a clock-derived tid is made later than '
+   'the previous one on every path and becomes the new basis; all encoders/'
+   'decoders of the on-disk headers agree on format, length, arity and field '
+   'conversions; the before-bound is strict (evaluated under the ordering '
+   'record tid = bound); index/position/last-tid are published only under '
+   'the storage lock (and the pool writer side); reopening restores them '
+   'from the scan; every helper the query classes use exists.  Does not '
+   'decide that returned bytes equal what was stored.',
+   'taint/provenance dataflow, struct-format table agreement, three-ordering '
+   'evaluation of comparisons, lockset analysis, definedness over the static '
+   'MRO')
+_c('C09', 'Static guard-dominance with light path sensitivity over the '
+   'inlined open/close paths: every file-system mutation reachable from a '
+   'read-only open or close is excluded on the read-only branch; every write '
+   'API refuses first; no failure while validating the saved index escapes '
+   '(exception-edge reachability), the index is used only when accepted and '
+   'the file is always scanned from the saved position; the index is written '
+   'to a temporary name and renamed.  Does not decide equality of state with '
+   'a full scan for every stale index.',
+   'guard dominance with flag correlation, exception-edge reachability, '
+   'def-use provenance over an inlined CFG')
+_c('C12', 'Static alias/ownership, ordering and confinement analysis of the '
+   'savepoint machinery: captured and retained savepoint state is a fresh '
+   'copy, rollback steps happen in the required order, the savepoint store '
+   'only reads from the real storage, is closed on every commit/abort path, '
+   'stores are redirected before the first save, and everything it writes is '
+   'addressed through state reset() restores.  Does not decide value-level '
+   'equality of object states after rollback.',
+   'alias (fresh-copy) rules, event-order automata over the CFG, who-may-call '
+   'confinement, interprocedural provenance')
+_c('C13', 'Static must-pass / ordering / provenance analysis of the blob '
+   'paths on all exits including exception edges: abort always cleans and '
+   'finish always forgets, record before file, dirty-list entry before the '
+   'file exists, committed files opened read-only, post-pack removal only of '
+   'listed files naming (oid, tid), a handed-over working file is consumed or '
+   'removed on every exit.  Does not decide byte equality of blob contents.',
+   'must-pass-through and ordering automata with exception edges, provenance '
+   'of file names, ownership typestate of the working file')
+_c('C17', 'Narrow structural claim: restore/tpc_begin role agreement at every '
+   'copy site, strict progress of the recovery scan loop (sign abstract '
+   'interpretation with branch refinement) and EOF exit of the copy loop, '
+   'UndoError confinement to the undo API (exception-effect reachability), '
+   'begin/finish-or-abort typestate of the recovery loop.  Does not decide '
+   'identity of query answers between source and copy.',
+   'argument-role matching, sign-domain abstract interpretation, explicit-'
+   'raise reachability through handlers, typestate')
+_c('C19', 'Narrow structural claim over fsIndex: a prefix bucket is queried '
+   'with a key suffix only when it is the bucket of exactly that prefix '
+   '(path-sensitive, with guard facts), deletion removes empty buckets, save '
+   'and load agree on the stream shape, all splits are 6+2 bytes.  Does not '
+   'decide agreement with a sorted dict over all operation sequences.',
+   'path-sensitive guard-fact analysis, stream-shape automaton, constant '
+   'table agreement')
+_c('C20', 'Static confinement, lockset and three-ordering analysis of the id '
+   'counter: written only by allocation / guarded raise / constructor and '
+   'only under the storage lock; every store or restore of an id above the '
+   'counter raises it on every normal path (branch evaluated under oid > '
+   'counter); reopen takes it from the index maximum; the demo storage '
+   'issues an id only after the issued-set test and a miss in both layers; '
+   'connection-side ids always come from new_oid.  Does not enumerate '
+   'schedules of concurrent allocators.',
+   'who-may-write confinement, lockset, ordering-evaluated branch pruning, '
+   'exception-path typestate, provenance')
+
 NOT_YET = {}
 
 
